@@ -1,7 +1,7 @@
 (* C16 - every bitmap implementation behaves as a set of integers.
    Only statements, closed by exact, with Print Assumptions beneath. *)
 From E2V Require Import Bitmap.BmGen Bitmap.RBModel Bitmap.BAModel Bitmap.FSetLemmas
-     Bitmap.BackendOk Bitmap.RBProofs Bitmap.BAProofs Bitmap.GenProofs.
+     Bitmap.BackendOk Bitmap.RBProofs Bitmap.BAProofs Bitmap.GenProofs Bitmap.BmResize Bitmap.BmResizeProofs.
 Local Open Scope N_scope.
 
 (* The rbtree back end, driven through the generic layer, returns for every
@@ -26,6 +26,23 @@ Theorem ba_align_irrelevant : forall al al' g ops,
   Forall (op_pre g) ops -> run0 (BA al) g ops = run0 (BA al') g ops.
 Proof. exact (fun al al' g ops F => eq_trans (ba_refines_set al g ops F) (eq_sym (ba_refines_set al' g ops F))). Qed.
 Print Assumptions ba_align_irrelevant.
+
+(* Sequences with resizes in between (the geometry changes, the bits of the common range are kept,
+   everything beyond the old or new end is clear): both back ends still return what the reference returns. *)
+Theorem rb_refines_set_across_resizes : forall g ops,
+  seg_pre g ops -> run_seg0 RB g ops = run_seg0 FSet g ops.
+Proof. exact (run_seg0_sim RB inv rb_mem RB_ok). Qed.
+Print Assumptions rb_refines_set_across_resizes.
+
+Theorem ba_refines_set_across_resizes : forall al g ops,
+  seg_pre g ops -> run_seg0 (BA al) g ops = run_seg0 FSet g ops.
+Proof. exact (fun al => run_seg0_sim (BA al) (fun _ => True) tb (BA_ok al)). Qed.
+Print Assumptions ba_refines_set_across_resizes.
+
+Theorem resize_keeps_exactly_the_common_range : forall g ne (st : gstate FSet) j,
+  fst (resize_state FSet g ne st) j = (j <? N.min (g_end g) ne + 1 - g_start g) && fst st j.
+Proof. exact resize_fset_lemma. Qed.
+Print Assumptions resize_keeps_exactly_the_common_range.
 
 (* Every reachable rbtree state keeps its extents sorted, disjoint, non-adjacent
    and non-empty, with unique node identities and a coherent read cursor. *)
